@@ -8,6 +8,7 @@ import (
 	"github.com/emmansun/gmsm/sm2"
 
 	"verifh/mon"
+	"verifh/ref/ec"
 	enc "verifh/ref/sm2enc"
 )
 
@@ -172,6 +173,36 @@ func hostileInputs(c *mon.Case, kp *keyPair, fam string) []hinput {
 		add("asn1: y=2^256+y", seq(ct.X1, new(big.Int).Add(new(big.Int).Lsh(big.NewInt(1), 256), ct.Y1)))
 		add("asn1: x=2^512", seq(new(big.Int).Lsh(big.NewInt(1), 512), ct.Y1))
 		add("asn1: x=1,y=1", seq(big.NewInt(1), big.NewInt(1)))
+		// invalid-curve forgery: a C1 off the curve lies on some curve y^2 = x^3 - 3x + b'; the affine
+		// group law never uses b, so the reference arithmetic yields the very multiple [d]C1 that a
+		// decrypter without the on-curve check of step B1 computes, and C2, C3 can be made to fit
+		if isSM2(cv) {
+			for i := 0; i < 3; i++ {
+				bx := new(big.Int).Mod(new(big.Int).Add(ct.X1, big.NewInt(int64(i))), p)
+				by := new(big.Int).Mod(new(big.Int).Add(ct.Y1, big.NewInt(1+int64(c.R.Intn(1000)))), p)
+				if cv.OnCurve(bx, by) {
+					continue
+				}
+				var fx, fy *big.Int
+				if mon.Try(func() {
+					r := ec.Mul(kp.d, ec.Point{X: bx, Y: by})
+					if !r.Inf {
+						fx, fy = r.X, r.Y
+					}
+				}) != nil || fx == nil {
+					continue
+				}
+				t := enc.Mask(cv, fx, fy, len(m))
+				c2 := make([]byte, len(m))
+				for j := range m {
+					c2[j] = m[j] ^ t[j]
+				}
+				f := &enc.Ciphertext{Curve: cv, X1: bx, Y1: by, C2: c2, C3: enc.Tag(cv, fx, fy, m)}
+				add("invalid-curve forgery, C1C3C2", f.Plain(enc.C1C3C2, enc.Uncompressed))
+				add("invalid-curve forgery, C1C2C3", f.Plain(enc.C1C2C3, enc.Uncompressed))
+				add("invalid-curve forgery, ASN.1", f.ASN1())
+			}
+		}
 		add("asn1: negative x", tl(0x30, cat(tl(2, append([]byte{0x80}, x[1:]...)), uintDER(ct.Y1), tl(4, ct.C3), tl(4, ct.C2))))
 		add("asn1: negative y", tl(0x30, cat(uintDER(ct.X1), tl(2, []byte{0xff}), tl(4, ct.C3), tl(4, ct.C2))))
 	case "infinity":
